@@ -265,7 +265,6 @@ where
         vhost::verif::before_join(handle.thread().id());
         let result = match handle.join().map_err(Error::WaitDaemon)? {
             Ok(()) => Ok(()),
-            Err(Error::HandleRequest(VhostUserError::SocketBroken(_))) => Ok(()),
             Err(Error::HandleRequest(_)) if shutdown_requested() => Ok(()),
             Err(error) => Err(error),
         };
